@@ -16,6 +16,7 @@ package transformer
 // contract "the parser maps the text to this tree".
 
 import (
+	"fmt"
 	"strings"
 
 	"github.com/antlr4-go/antlr/v4"
@@ -554,6 +555,8 @@ func docTree(d *dDoc) (*parser.MainContext, *tb) {
 	b.span(cs, cfrom)
 	m.AddChild(cs)
 	b.span(m, 0)
+	// the end-of-file token closes `main` (it carries no text)
+	m.AddTokenNode(antlr.CommonTokenFactoryDEFAULT.Create(b.pair, antlr.TokenEOF, "<EOF>", antlr.TokenDefaultChannel, b.pos, b.pos-1, b.line, b.col))
 	if d.style == 2 {
 		b.text = append(b.text, "\n")
 	}
@@ -562,9 +565,49 @@ func docTree(d *dDoc) (*parser.MainContext, *tb) {
 
 // verifParseDoc: the model (or the errors) for document d.  Executor: real
 // listener over the generated tree.  Native: real ParseDSL on the text.
+// verifTreeConforms: every rule context of the tree has a child sequence that the sub-automaton of its rule in the
+// parser's own ATN (deserialised from pkg/go/gen/openfga_parser.go) accepts - the generated tree is a tree of the grammar.
+func verifTreeConforms(ctx antlr.ParserRuleContext, atn *antlr.ATN) bool {
+	var isRule []bool
+	var vals []int
+	ok := true
+	for _, c := range ctx.GetChildren() {
+		switch x := c.(type) {
+		case antlr.TerminalNode:
+			isRule = append(isRule, false)
+			vals = append(vals, x.GetSymbol().GetTokenType())
+		case antlr.ParserRuleContext:
+			isRule = append(isRule, true)
+			vals = append(vals, x.GetRuleIndex())
+			if !verifTreeConforms(x, atn) {
+				ok = false
+			}
+		default:
+			ok = false
+		}
+	}
+	if ok && !antlr.VerifRuleAccepts(atn, ctx.GetRuleIndex(), isRule, vals) {
+		desc := fmt.Sprintf("rule %d children", ctx.GetRuleIndex())
+		for i := range vals {
+			if isRule[i] {
+				desc += fmt.Sprintf(" r%d", vals[i])
+			} else {
+				desc += fmt.Sprintf(" t%d", vals[i])
+			}
+		}
+		zzverif.Class("generated-tree-is-a-tree-of-the-grammar", desc)
+		return false
+	}
+	return ok
+}
+
 func verifParseDoc(d *dDoc) (*OpenFgaDslListener, *multierror.Error, *tb) {
 	zzverif.Stub("ParseDSL lexer+parser = grammar-conforming parse tree of the generated document (validated natively per witness)")
 	tree, b := docTree(d)
+	if d.omit == "" && zzverif.Param("CONFORM", 0) == 1 {
+		zzverif.Assert(verifTreeConforms(tree, b.p.GetATN()), "generated-tree-is-a-tree-of-the-grammar")
+		zzverif.Reach("tree-conforms")
+	}
 	if !zzverif.Symbolic() {
 		l, el := ParseDSL(strings.Join(b.text, ""))
 		return l, el.Errors, b
